@@ -32,6 +32,7 @@ macro "rb_tac" : tactic => `(tactic|
    obtain ⟨hV, h90, h180, hn⟩ := h
    obtain ⟨e90, e180⟩ := hs
    simp only at hV h90 h180 hn hv e90 e180
+   try simp only at ht
    subst e90 e180
    have e3 : (3 * V).tdiv 2 = (3 * V) / 2 := Int.tdiv_eq_ediv_of_nonneg (by omega)
    have hz : sz = true → nppa seg * ax = 0 → ax = 0 := by
@@ -42,14 +43,14 @@ macro "rb_tac" : tactic => `(tactic|
    clear hn
    generalize hp : nppa seg * ax = p at *
    cases sseg <;> cases ss <;> cases sz <;>
-     simp only [Sym.basic, Sym.findBasicBin, Sym.findBasicVS, Sym.symOpBin0, Sym.symOpGeneral,
+     simp only [Sym.basic, Sym.findBasicBin, Sym.findBasicVS, Sym.basicView, Sym.basicSeg, Sym.symOpBin0, Sym.symOpGeneral,
        Sym.newOp, Sym.mkShift, SymOp.triv, tdiv_lit V hV, hp,
        true_and, false_and, and_true, and_false, true_or, false_or, or_true, or_false, if_true, if_false,
        Bool.false_eq_true, forall_const, false_implies, true_implies, reduceCtorEq] at * <;>
      repeat' (first
        | omega
-       | (simp only [SymOp.onBin, tdiv_lit V hV, e3, Bin.mk.injEq, true_and, and_true] <;> omega)
        | split
+       | (simp only [SymOp.onBin, tdiv_lit V hV, e3, Bin.mk.injEq, true_and, and_true] <;> omega)
        | simp only [SymOp.onBin, tdiv_lit V hV, e3])))
 
 theorem rb0_FF (y : Sym) (h : y.WF) (hs : Sw y false false) (seg view ax tof : Int) (hv : 0 ≤ view ∧ view < y.V) :
@@ -59,7 +60,4 @@ theorem rb0_FT (y : Sym) (h : y.WF) (hs : Sw y false true) (seg view ax tof : In
 set_option maxHeartbeats 1000000 in
 theorem rb0_TT (y : Sym) (h : y.WF) (hs : Sw y true true) (seg view ax tof : Int) (hv : 0 ≤ view ∧ view < y.V) :
     (y.symOpBin0 seg view ax).onBin (y.basic ⟨seg, view, ax, 0, tof⟩) = ⟨seg, view, ax, 0, tof⟩ := by rb_tac
-theorem rbg_FF (y : Sym) (h : y.WF) (hs : Sw y false false) (seg view ax tang tof : Int) (hv : 0 ≤ view ∧ view < y.V)
-    (htang : tang ≠ 0) :
-    (y.symOpGeneral tang seg view ax).onBin (y.basic ⟨seg, view, ax, tang, tof⟩) = ⟨seg, view, ax, tang, tof⟩ := by rb_tac
 end StirVerif.C03
